@@ -223,9 +223,9 @@ Definition run_class (path : Z) (st : list piece) (p1 p2 : list cparam) (d k : l
   let got_raw := (nthz d 2 =? nthz d 4) && (nthz d 3 =? nthz d 5) in
   let first_ok := nthz d 2 =? nthz d 0 in
   let second_bad := negb (nthz d 3 =? nthz d 1) in
-  (* on each execution that differs, the bound statement raised an error *)
-  let bound_errs := ((nthz d 2 =? nthz d 0) || (nthz k 2 =? 1))
-                    && ((nthz d 3 =? nthz d 1) || (nthz k 3 =? 1)) in
+  (* the first execution that differs is one on which the bound statement raised an error (a later
+     difference may just be its consequence: the first update is missing) *)
+  let bound_errs := if nthz d 2 =? nthz d 0 then nthz k 3 =? 1 else nthz k 2 =? 1 in
   if any_param is_int_min p1 p2 then 6
   else if path =? path_qry then
     (if negb (subst_stable (flat st) (vals p1)) || negb (subst_stable (flat st) (vals p2)) then 7
